@@ -15,6 +15,7 @@ VERIF_MSG = [
     (r'postcondition not satisfied', 'postcondition'),
     (r'precondition not satisfied', 'precondition'),
     (r'assertion failed', 'assertion'),
+    (r'^requires not satisfied', 'assertion'),   # the `requires` of an `assert .. by(bit_vector) requires ..` step
     (r'invariant not satisfied', 'invariant'),
     (r'loop invariant', 'invariant'),
     (r'possible arithmetic underflow/overflow', 'arith-overflow'),
